@@ -24,7 +24,7 @@ FAMILIES = {
 DEVS = ["putback_reuses_unclean", "copydone_single_recv", "copydone_no_copy_check", "set_in_tx_not_marked",
         "reset_before_rollback", "timeout_keeps_connection", "failed_tx_counts_as_idle", "prepare_not_marked",
         "no_rollback_at_checkin", "no_reset_at_checkin", "map_kept_after_release", "early_return_leaks_guard",
-        "error_keeps_copy_mode", "timeout_marks_bad_after_write", "local_batch_keeps_server", "reset_clears_dirty"]
+        "error_keeps_copy_mode", "timeout_marks_bad_after_write", "local_batch_keeps_server", "reset_clears_dirty", "cleanup_in_copy_reuses"]
 PER = 40
 
 
